@@ -13,7 +13,7 @@ PROP = "C05"
 
 
 def gate_names_from_report():
-    rep = json.load(open(os.path.join(ROOT, ".cache", "maps2coq_report.json")))
+    rep = json.load(open(common.MAPS_REPORT))
     names = []
     for t, _ in rep["op_maps"]:
         names += rep["tables"][t]
